@@ -366,9 +366,7 @@ func genC12Gppp(c *Ctx) {
 		}
 		c.Check("c12.gpp_decrypt_ref", B(pt))
 		decBytes(c12RefCBCEncrypt(pt))
-		if len(pt)%2 == 0 {
-			c.Case("gppp.dec_utf16le", B(pt))
-		}
+		c.Case("gppp.dec_utf16le", B(pt))
 	}
 	for n := 0; n <= 33; n++ {
 		pt := r.Bytes(n)
